@@ -1,98 +1,51 @@
 (* C06 -- Event-file rows assemble into exactly the annotation the sidecar prescribes.
    Property theorems only; each closed with [exact] and followed by Print Assumptions.
-   [fixed = false] is the code as it is, [fixed = true] the repaired behaviour
-   (see Model/RefSplice.v: replace_ref, remover; Model/Assemble.v: value_handler). *)
+
+   PART A states the property for the code as it now is: /repo carries the fix: commits
+   a455136 (empty text like n/a), 37fb060 (re.escape), a2f08b3 (empty value cell),
+   2ad4134 (_remover tests for a comma), a8ad4f5 (one occurrence at a time) and fd59dc0
+   (positional splice); the model follows it at [fixed = true] and that is what the
+   correspondence run compares with the implementation.
+   PART B is the record of the repaired defects: the same model at [fixed = false] is the
+   code before those commits (checkable with VERIF_C06_FIXED=0 against an unpatched tree). *)
 From Coq Require Import List NArith.
 From HV Require Import Base.Res Base.Str Model.Parse Model.RefSplice Model.Assemble
-  Proofs.ParseProofs Proofs.AssembleProofs.
+  Proofs.ParseProofs Proofs.AssembleProofs Proofs.AssembleTotal.
 Import ListNotations.
+
+(* ====================== PART A: the code as it now is (fixed = true) ====================== *)
 
 (* The assembled annotation of row i is the ", "-join, in column order, of the non-empty,
    non-n/a parts; a referenced column is spliced into the others ([row_part] folds
    replace_ref over the referenced columns' texts of the same row) and is not listed
    itself ([spec_row] drops the referenced names).  For ALL sidecars, tables, rows and
-   every enumeration order of the reference set, for the code as it is and for the repair. *)
+   every enumeration order of the reference set. *)
 Theorem C06_row_is_union :
-  forall (fixed : bool) (st st' : tabular) (ord : list str) (rows : list str),
-  series_a fixed st ord = Ok (st', rows) -> wf_table (tb_df st) ->
+  forall (st st' : tabular) (ord : list str) (rows : list str),
+  series_a true st ord = Ok (st', rows) -> wf_table (tb_df st) ->
   exists all tf,
-    handle_transforms fixed st = Ok (st', all, tf) /\
+    handle_transforms true st = Ok (st', all, tf) /\
     length rows = t_rows (tb_df st) /\
     forall i, i < t_rows (tb_df st) ->
-      spec_row fixed all (set_order ord (column_refs (tb_sidecar st))) (map fst tf) i
+      spec_row true all (set_order ord (column_refs (tb_sidecar st))) (map fst tf) i
       = Ok (nth i rows []).
-Proof. exact row_is_union. Qed.
+Proof. exact (row_is_union true). Qed.
 Print Assumptions C06_row_is_union.
 
 (* The parts: each listed column is the table column with the transformer of its kind
    applied cell by cell (HED column: the cell; categorical: the entry selected by the
-   cell, "" when there is none; value: n/a passes, otherwise every '#' is the cell). *)
+   cell, "" when there is none; value: n/a and empty pass as n/a, otherwise every '#' is
+   the cell). *)
 Theorem C06_parts_per_kind :
-  forall fixed cols tf all, transform fixed cols tf = Ok all ->
+  forall cols tf all, transform true cols tf = Ok all ->
   Forall2 (fun (nf : str * xform) (nc : str * list str) =>
              fst nc = fst nf /\
-             exists c, get_col (fst nf) cols = Ok c /\ snd nc = map (apply_xform fixed (snd nf)) c)
+             exists c, get_col (fst nf) cols = Ok c /\ snd nc = map (apply_xform true (snd nf)) c)
           tf all.
-Proof. exact transform_cells. Qed.
+Proof. exact (transform_cells true). Qed.
 Print Assumptions C06_parts_per_kind.
 
-(* One annotation per row, in row order (row i is computed from cells of row i only:
-   C06_row_is_union reads columns through [nth i]). *)
-Theorem C06_row_order :
-  forall (fixed : bool) (st st' : tabular) (ord : list str) (rows : list str),
-  series_a fixed st ord = Ok (st', rows) -> length rows = t_rows (tb_df st).
-Proof. exact row_order. Qed.
-Print Assumptions C06_row_order.
-
-(* Same answer every time it is asked; neither the table (cells, columns, row order)
-   nor the sidecar is changed (only dtype marks of the internal frame are). *)
-Theorem C06_deterministic_inputs_unchanged :
-  forall (fixed : bool) (st st' : tabular) (ord : list str) (rows : list str),
-  series_a fixed st ord = Ok (st', rows) ->
-  tb_df st' = tb_df st /\ tb_sidecar st' = tb_sidecar st /\
-  series_a fixed st' ord = Ok (st', rows).
-Proof. exact deterministic_unchanged. Qed.
-Print Assumptions C06_deterministic_inputs_unchanged.
-
-(* FULL STATEMENT (na_is_removed): whenever the referenced column contributes nothing
-   for the row (its text is "n/a" or empty), the reference is taken out by the remover:
-     forall text ref v, skipped v = true ->
-       replace_ref false text ref v = Ok (resub_lit (brace ref) text 0).
-   It is FALSE of the code as it is (an empty text is substituted literally): *)
-Theorem C06_na_is_removed_refuted :
-  exists text ref v r, skipped v = true /\ replace_ref false text ref v = Ok r /\
-                       wf_delim text = true /\ wf_delim r = false.
-Proof. exact na_is_removed_refuted. Qed.
-Print Assumptions C06_na_is_removed_refuted.
-
-(* ... and holds, for all inputs, of the repaired behaviour, which also never raises. *)
-Theorem C06_na_is_removed :
-  forall text ref v : str, skipped v = true ->
-  replace_ref true text ref v = Ok (remove_ref_fixed (brace ref) text).
-Proof. exact na_is_removed_fixed. Qed.
-Print Assumptions C06_na_is_removed.
-
-Theorem C06_replace_ref_fixed_never_raises :
-  forall text ref v : str, exists r, replace_ref true text ref v = Ok r.
-Proof. exact replace_ref_fixed_total. Qed.
-Print Assumptions C06_replace_ref_fixed_never_raises.
-
-(* A digits-only column name is used un-escaped inside the pattern ("{1}" is a
-   quantifier): "R, {1}, B" becomes "R{1}B", "{0}" raises; repaired: "R, B". *)
-Theorem C06_digits_only_reference_refuted :
-  replace_ref false s_red_1_blue s_1 ch_na = Ok [82; 123; 49; 125; 66]%N /\
-  replace_ref false s_red_1_blue [48]%N ch_na = Exn AttributeError /\
-  replace_ref true s_red_1_blue s_1 ch_na = Ok [82; 44; 32; 66]%N.
-Proof. exact digits_ref_refuted. Qed.
-Print Assumptions C06_digits_only_reference_refuted.
-
-(* "skipping cells that are n/a or empty": FALSE for an empty cell of a value column
-   in the code as it is; true of every column kind in the repaired model. *)
-Theorem C06_empty_value_cell_refuted :
-  exists tmpl, keep_part (value_handler false tmpl []) = true.
-Proof. exact empty_value_cell_refuted. Qed.
-Print Assumptions C06_empty_value_cell_refuted.
-
+(* Cells that are n/a or empty contribute no part, whatever the column kind. *)
 Theorem C06_skipped_cell_contributes_nothing :
   forall (f : xform) (x : str), skipped x = true ->
   (forall kv, f = XCat kv -> assoc x kv = None) ->
@@ -100,35 +53,60 @@ Theorem C06_skipped_cell_contributes_nothing :
 Proof. exact skipped_cell_contributes_nothing. Qed.
 Print Assumptions C06_skipped_cell_contributes_nothing.
 
+(* na_is_removed, full statement: whenever the referenced column contributes nothing for
+   the row (its text is "n/a" or empty) the reference is taken out by the remover, never
+   substituted literally -- for all texts, reference names (digits-only included: the name
+   is escaped) and values. *)
+Theorem C06_na_is_removed :
+  forall text ref v : str, skipped v = true ->
+  replace_ref true text ref v = Ok (remove_ref_fixed (brace ref) text).
+Proof. exact na_is_removed_fixed. Qed.
+Print Assumptions C06_na_is_removed.
+
+(* Assembly never raises: for every sidecar, table and reference order. *)
+Theorem C06_assembly_never_raises :
+  forall (st : tabular) (ord : list str), exists st' rows, series_a true st ord = Ok (st', rows).
+Proof. exact series_a_fixed_total. Qed.
+Print Assumptions C06_assembly_never_raises.
+
+Theorem C06_replace_ref_never_raises :
+  forall text ref v : str, exists r, replace_ref true text ref v = Ok r.
+Proof. exact replace_ref_fixed_total. Qed.
+Print Assumptions C06_replace_ref_never_raises.
+
+(* One annotation per row, in row order (row i is computed from cells of row i only:
+   C06_row_is_union reads columns through [nth i]). *)
+Theorem C06_row_order :
+  forall (st st' : tabular) (ord : list str) (rows : list str),
+  series_a true st ord = Ok (st', rows) -> length rows = t_rows (tb_df st).
+Proof. exact (row_order true). Qed.
+Print Assumptions C06_row_order.
+
+(* Same answer every time it is asked; neither the table (cells, columns, row order)
+   nor the sidecar is changed (only dtype marks of the internal frame are). *)
+Theorem C06_deterministic_inputs_unchanged :
+  forall (st st' : tabular) (ord : list str) (rows : list str),
+  series_a true st ord = Ok (st', rows) ->
+  tb_df st' = tb_df st /\ tb_sidecar st' = tb_sidecar st /\
+  series_a true st' ord = Ok (st', rows).
+Proof. exact (deterministic_unchanged true). Qed.
+Print Assumptions C06_deterministic_inputs_unchanged.
+
 (* splice_tree + splice_well_delimited, BOUNDED: for every template over
    {a, blank, ',', '(', ')', {r}} of at most 7 symbols that is delimiter-well-formed and
-   in which each reference is a whole tag, removing the reference (cell n/a) yields a
-   delimiter-well-formed text whose C02 parse is the template's parse with the reference
-   tags removed and emptied groups pruned ([splice_concl]).
-   Code as it is: under two extra hypotheses (the text does not start with a blank, the
-   reference does not occur twice with only delimiters between).  Repaired: no extra
-   hypothesis.  Exhaustive inside the kernel; not proved beyond the bound. *)
+   in which each reference is a whole tag ([splice_premise true]), removing the reference
+   (cell n/a) yields a delimiter-well-formed text whose C02 parse is the template's parse
+   with the reference tags removed and emptied groups pruned ([splice_concl]).
+   Exhaustive inside the kernel; not proved beyond the bound. *)
 Theorem C06_splice_tree_bounded :
-  forall w : str, length w <= 7 -> Forall (fun c => In c sigma_t) w ->
-  splice_premise false w = true -> splice_concl false w = true.
-Proof. exact splice_tree_bounded. Qed.
-Print Assumptions C06_splice_tree_bounded.
-
-Theorem C06_splice_tree_fixed_bounded :
   forall w : str, length w <= 7 -> Forall (fun c => In c sigma_t) w ->
   splice_premise true w = true -> splice_concl true w = true.
 Proof. exact splice_tree_fixed_bounded. Qed.
-Print Assumptions C06_splice_tree_fixed_bounded.
+Print Assumptions C06_splice_tree_bounded.
 
-(* The two extra hypotheses are needed: " {r},a" gives ",a" and "({r},{r})" gives "()". *)
-Theorem C06_splice_well_delimited_refuted :
-  (splice_premise true w_blank_ref = true /\ splice_concl false w_blank_ref = false) /\
-  (splice_premise true w_twice = true /\ splice_concl false w_twice = false).
-Proof. exact splice_well_delimited_refuted. Qed.
-Print Assumptions C06_splice_well_delimited_refuted.
-
-(* Non-vacuity: a 3-row table with a categorical column referenced from a value
-   template and a HED column; row 2 shows the n/a defect "(, L/y)" and its repair "(L/y)". *)
+(* Non-vacuity: a 3-row table with a categorical column referenced from a value template
+   and a HED column.  Row 2 (categorical cell n/a) is "(L/y)" for the code as it now is;
+   before the repair it was "(, L/y)". *)
 Example C06_nonvacuous :
   wf_table ex_table /\
   (exists st', series_a false ex_st [] =
@@ -140,3 +118,57 @@ Example C06_nonvacuous :
                 [40; 76; 47; 121; 41]%N;
                 [] ])).
 Proof. exact ex_series. Qed.
+
+(* ============ PART B: record of the repaired defects (fixed = false, unrepaired code) ============ *)
+
+(* The structural clauses already held of the unrepaired code. *)
+Theorem C06_unrepaired_row_is_union :
+  forall (st st' : tabular) (ord : list str) (rows : list str),
+  series_a false st ord = Ok (st', rows) -> wf_table (tb_df st) ->
+  exists all tf,
+    handle_transforms false st = Ok (st', all, tf) /\
+    length rows = t_rows (tb_df st) /\
+    forall i, i < t_rows (tb_df st) ->
+      spec_row false all (set_order ord (column_refs (tb_sidecar st))) (map fst tf) i
+      = Ok (nth i rows []).
+Proof. exact (row_is_union false). Qed.
+Print Assumptions C06_unrepaired_row_is_union.
+
+(* REPAIRED by a455136: na_is_removed was FALSE of the unrepaired code -- an empty text
+   (n/a or unknown categorical cell) was substituted literally: "{c}, S" -> ", S". *)
+Theorem C06_na_is_removed_refuted :
+  exists text ref v r, skipped v = true /\ replace_ref false text ref v = Ok r /\
+                       wf_delim text = true /\ wf_delim r = false.
+Proof. exact na_is_removed_refuted. Qed.
+Print Assumptions C06_na_is_removed_refuted.
+
+(* REPAIRED by 37fb060: a digits-only column name was used un-escaped inside the pattern
+   ("{1}" is a quantifier): "R, {1}, B" became "R{1}B", "{0}" raised; now "R, B". *)
+Theorem C06_digits_only_reference_refuted :
+  replace_ref false s_red_1_blue s_1 ch_na = Ok [82; 123; 49; 125; 66]%N /\
+  replace_ref false s_red_1_blue [48]%N ch_na = Exn AttributeError /\
+  replace_ref true s_red_1_blue s_1 ch_na = Ok [82; 44; 32; 66]%N.
+Proof. exact digits_ref_refuted. Qed.
+Print Assumptions C06_digits_only_reference_refuted.
+
+(* REPAIRED by a2f08b3: an empty cell of a value column was not skipped. *)
+Theorem C06_empty_value_cell_refuted :
+  exists tmpl, keep_part (value_handler false tmpl []) = true.
+Proof. exact empty_value_cell_refuted. Qed.
+Print Assumptions C06_empty_value_cell_refuted.
+
+(* REPAIRED by 2ad4134 and a8ad4f5: for the unrepaired code the bounded splice theorem
+   needed two extra hypotheses (the text does not start with a blank, the reference does
+   not occur twice with only delimiters between) ... *)
+Theorem C06_unrepaired_splice_tree_bounded :
+  forall w : str, length w <= 7 -> Forall (fun c => In c sigma_t) w ->
+  splice_premise false w = true -> splice_concl false w = true.
+Proof. exact splice_tree_bounded. Qed.
+Print Assumptions C06_unrepaired_splice_tree_bounded.
+
+(* ... and was false without them: " {r},a" gave ",a" and "({r},{r})" gave "()". *)
+Theorem C06_splice_well_delimited_refuted :
+  (splice_premise true w_blank_ref = true /\ splice_concl false w_blank_ref = false) /\
+  (splice_premise true w_twice = true /\ splice_concl false w_twice = false).
+Proof. exact splice_well_delimited_refuted. Qed.
+Print Assumptions C06_splice_well_delimited_refuted.
